@@ -9,7 +9,7 @@ Import ListNotations.
 
 (* what happens to request i *)
 Inductive outcome :=
-| OKeep        (* handled, response written, connection kept alive (incl. recovered panic) *)
+| OKeep        (* handled, response written, connection kept alive (incl. a recovered panic and a handler that exiles its context: Serve finishes the trace, then goes on with another context) *)
 | OClose       (* handled, response carries Connection: close *)
 | OMalformed   (* ReadHeader fails *)
 | OBodyErr     (* header read, body read fails (too large / peer closed mid-body) *)
@@ -144,7 +144,7 @@ Fixpoint parse_script (s : bs) : list outcome :=
   match s with
   | [] => []
   | c :: r =>
-      (if Byte.eqb c x6b (*k*) || Byte.eqb c x70 (*p*) then [OKeep]
+      (if Byte.eqb c x6b (*k*) || Byte.eqb c x70 (*p*) || Byte.eqb c x78 (*x: the handler exiles its context*) then [OKeep]
        else if Byte.eqb c x63 (*c*) then [OClose]
        else if Byte.eqb c x6d (*m*) then [OMalformed]
        else if Byte.eqb c x62 (*b*) || Byte.eqb c x74 (*t*) then [OBodyErr]
